@@ -1072,7 +1072,7 @@ func c56baseline(qs []c56SeqQ, cs []c56AddrCombo) [][]map[string]bool {
 		for j := range cs {
 			msg, err, herr := c56exec(qs[i].raw, 0, cs[j])
 			if err != nil || herr != nil {
-				out[i][j] = map[string]bool{"rejected": true}
+				out[i][j] = map[string]bool{"request-rejected": true}
 				continue
 			}
 			vs, _ := c56judge(qs[i].cm, msg, cs[j])
@@ -1121,7 +1121,7 @@ func (x *c56Run) seqExplore(tag string, qs []c56SeqQ, cs []c56AddrCombo, L, dept
 					q, c := &qs[qc/len(cs)], &cs[qc%len(cs)]
 					msg, err, herr := c56exec(q.raw, 0, *c)
 					if err != nil || herr != nil {
-						if !base[qc/len(cs)][qc%len(cs)]["rejected"] {
+						if !base[qc/len(cs)][qc%len(cs)]["request-rejected"] {
 							vs = append(vs, c56Verdict{"request-rejected", fmt.Sprintf("%s is accepted alone but rejected here: %v %v", opName(op), err, herr)})
 						}
 						msg = nil
@@ -1254,7 +1254,9 @@ func (x *c56Run) racePart(qs []c56SeqQ, cs []c56AddrCombo, idx *int) {
 			}
 			pair := [2]qc{all[a], all[b]}
 			name := vk.Key("R", qs[pair[0].q].name, cs[pair[0].c].name, qs[pair[1].q].name, cs[pair[1].c].name)
-			n := vk.Explore(nil, nil, -1, func(ch *vk.Chooser) {
+			// (in replay mode ExploreSharded runs exactly the recorded interleaving of the recorded
+			// pair and nothing else: the race runtime reports equal stacks only once per process)
+			n := vk.ExploreSharded(r, name, 0, -1, func(ch *vk.Chooser) {
 				var reqs [2]*bfe_basic.Request
 				for t := 0; t < 2; t++ {
 					hr, e := bfe_http.ReadRequest(bfe_bufio.NewReader(&c56frag{qs[pair[t].q].raw, 0}), c56MaxURI)
